@@ -613,7 +613,12 @@ def corpus_cases():
     # NOLABEL alone: title lines stay, no header line (first record was lost on this path before f017b8d)
     gen3 = {**gen, "seed": 6, "nolabel": True, "notitle": False,
             "tables": [{**gen["tables"][0]}, {**gen["tables"][0], "number": 2}]}
-    return [ext, ext2, ext3, gen, gen2, gen3]
+    # a run directory with a .cor file (parse_modelfit_results raised ValueError before df2cfce), small-scale parameters
+    rd = {"kind": "rundir", "nth": 2, "nom": 1, "a": [[0.6, 0.2, 0.7, 0.3], [-0.3, -0.5, -0.5, 0.2], [0.1, 0.1, 0.3, -0.5], [0.3, 0.6, -0.8, -0.3]],
+          "blocks": [0, 0, 1, 0], "est": [0.0042, 0.00075, 0.011, 0.032], "se": [6.1e-05, 2.3e-05, 0.0023, 0.0075],
+          "files": ["cov", "cor", "coi"], "seed": 7}
+    rd2 = {**rd, "files": ["cor"], "seed": 8}
+    return [ext, ext2, ext3, gen, gen2, gen3, rd, rd2]
 
 
 def shrink(case):
@@ -1398,6 +1403,7 @@ def run_rundir(case, mon, tags):
     covw = np.array([[float(cell_value(sci_cell(x))) for x in r] for r in cov_e])
     covw = (covw + covw.T) / 2
     corw = np.array([[float(cell_value(sci_cell(x))) for x in r] for r in R])
+    np.fill_diagonal(corw, se)      # NONMEM prints the standard errors on the diagonal of the .cor table
     coiw = np.array([[float(cell_value(sci_cell(x))) for x in r] for r in np.linalg.inv(R) / np.outer(se, se)])
     tags.append("rundir:min-var=1e%d" % int(np.floor(np.log10(np.diag(covw).min()))))
 
